@@ -10,7 +10,8 @@ and how many rejecting checks precede its first write are NOT written here: they
 A mutator is a sequence of sub-steps `State → State × Except Err Unit`; the state reached at the raising
 sub-step is kept (a Python exception does not roll anything back).
 
-Not modelled: units / sources, function-arity checks, data sets other than scalars.
+Not modelled: units / sources, data sets other than scalars.  (The function-arity checks of `_create_cache` are:
+`buildCache`.)
 -/
 import MxlVerif.Model.Queries
 import MxlVerif.Generated.C03Mutators
@@ -657,7 +658,8 @@ def evalReadouts : List (Name × Fn) → Env → Except Err Env
 
 /-- `_get_args` including the final `args.pop(data)`: what `get_args`, `get_right_hand_side` and `__call__`
     all work with.  (Since the repair of F-C01-2 state-dependent coefficients are evaluated over
-    `args | data`, so the derivative entry points hand `dep ++ c.data` to `rhsFromArgs`.) -/
+    `args | data`, so the derivative entry points hand `dep ++ c.data` to `rhsFromArgs2` as the coefficients'
+    environment — and `dep` alone for the fluxes.) -/
 def rawArgs (c : Content) (cache : Cache) (vars : List (Name × Rat)) (t : Rat) : Except Err Env := do
   let env ← getArgsEnv c cache vars t
   pure (env.filter (fun kv => !(omKeys c.data).contains kv.1))
@@ -681,6 +683,31 @@ def overlayRow (env : Env) : List (Name × Fn) → List (Name × Rat) → Except
   | (rxn, f) :: rest, row => do
     let v ← f.calc env
     overlayRow env rest (omInsert row rxn v)
+
+/-- the second loop of `_get_right_hand_side` / `__call__` for one variable: the computed coefficient is evaluated on
+    `coef` (= `self._data | args`), the FLUX is read from `args` — the table `_get_args` returned, from which the data
+    sets were popped (a flux name that only a data set carries is a KeyError) -/
+def accDyn2 (args coef : Env) (k : Name) : List (Name × Fn) → List (Name × Rat) → Except Err (List (Name × Rat))
+  | [], dxdt => pure dxdt
+  | (flux, dv) :: rest, dxdt => do
+    let n ← dv.calc coef
+    let fv ← args.get flux
+    let dxdt' ← accumulate dxdt k (n * fv)
+    accDyn2 args coef k rest dxdt'
+
+def accDynAll2 (args coef : Env) : List (Name × List (Name × Fn)) → List (Name × Rat) →
+    Except Err (List (Name × Rat))
+  | [], dxdt => pure dxdt
+  | (k, st) :: rest, dxdt => do
+    let dxdt' ← accDyn2 args coef k st dxdt
+    accDynAll2 args coef rest dxdt'
+
+/-- `_get_right_hand_side(args=…)` / the tail of `__call__`: static coefficients times `args[flux]`, then the computed
+    ones (the shared core's `rhsFromArgs` with the two environments kept apart) -/
+def rhsFromArgs2 (cache : Cache) (varNames : List Name) (args coef : Env) : Except Err (List (Name × Rat)) := do
+  let z := varNames.map fun k => (k, (0 : Rat))
+  let d1 ← accStaticAll args cache.stoich z
+  accDynAll2 args coef cache.dynStoich d1
 
 /-- does the entry point go through `if (cache := self._cache) is None: cache = self._create_cache()`? -/
 def Query.needsCache : Query → Bool
@@ -706,7 +733,7 @@ def answer (c : Content) (cache : Cache) : Query → Except Err Ans
     pure (.assoc l)
   | .rhs vals t => do
     let dep ← rawArgs c cache (stateOf c cache vals) t
-    let d ← rhsFromArgs cache (omKeys c.vars) (dep ++ c.data)
+    let d ← rhsFromArgs2 cache (omKeys c.vars) dep (dep ++ c.data)
     pure (.assoc d)
   | .call t vals =>
     let xs := (cycle vals 0 (omKeys c.vars)).map (·.2)
@@ -714,7 +741,7 @@ def answer (c : Content) (cache : Cache) : Query → Except Err Ans
       .error (.valueError "zip() argument lengths differ")
     else do
       let dep ← rawArgs c cache (cache.varNames.zip xs) t
-      let dxdt ← rhsFromArgs cache cache.varNames (dep ++ c.data)
+      let dxdt ← rhsFromArgs2 cache cache.varNames dep (dep ++ c.data)
       let l ← cache.varNames.mapM fun k => Env.get dxdt k
       pure (.rats l)
   | .stoich vals t => do
@@ -755,7 +782,7 @@ def answer (c : Content) (cache : Cache) : Query → Except Err Ans
     -- `_get_right_hand_side(args={"time": time} | row)`
     let l ← rows.mapM fun (t, vals) => do
       let row ← argsRow c cache (cycle vals 0 (omKeys c.vars)) t { time := false }
-      rhsFromArgs cache (omKeys c.vars) (row ++ [("time", t)] ++ c.data)
+      rhsFromArgs2 cache (omKeys c.vars) (row ++ [("time", t)]) (row ++ [("time", t)] ++ c.data)
     pure (.rows l)
   | .eqFresh => .ok (.bool true)
 
@@ -781,6 +808,60 @@ def freshAnswer (sigs : List (Name × Gen.Sig)) (c : Content) (q : Query) : Exce
     let cache ← buildCache sigs c
     answer c cache q
   else answer c default q
+
+/-! ### the public surface of `class Model` that is not a mutator -/
+
+/-- the public method a query form stands for (the harness calls exactly this one) -/
+def Query.entry : Query → String
+  | .init => "get_initial_conditions"
+  | .pvals => "get_parameter_values"
+  | .classes => "get_derived_parameter_names"
+  | .args .. => "get_args"
+  | .rhs .. => "get_right_hand_side"
+  | .fluxes .. => "get_fluxes"
+  | .call .. => "__call__"
+  | .stoich .. => "get_stoichiometries"
+  | .stoichvar .. => "get_stoichiometries_of_variable"
+  | .names .vars => "get_variable_names"
+  | .names .pars => "get_parameter_names"
+  | .names .rxns => "get_reaction_names"
+  | .names .readouts => "get_readout_names"
+  | .names (.surOuts _) => "get_surrogate_output_names"
+  | .names .surRxns => "get_surrogate_reaction_names"
+  | .names .unusedPars => "get_unused_parameters"
+  | .names .rawVars => "get_raw_variables"
+  | .names .rawPars => "get_raw_parameters"
+  | .names .rawDerived => "get_raw_derived"
+  | .names .rawRxns => "get_raw_reactions"
+  | .names .rawReadouts => "get_raw_readouts"
+  | .names .rawSurs => "get_raw_surrogates"
+  | .argNames _ => "get_arg_names"
+  | .rawStoich _ => "get_raw_stoichiometries_of_variable"
+  | .argsTC .. => "get_args_time_course"
+  | .fluxesTC _ => "get_fluxes_time_course"
+  | .rhsTC _ => "get_right_hand_side_time_course"
+  | .eqFresh => "__eq__"
+
+/-- every public reader the model answers: the entry points of the query forms, `ids` (observed after every op),
+    the second half of `.classes`, and the two dict-returning forms the `…_names` getters are `list(…)` of -/
+def modelledEntries : List String :=
+  [ "ids", "get_initial_conditions", "get_parameter_values", "get_derived_parameter_names",
+    "get_derived_variable_names", "get_derived_parameters", "get_derived_variables", "get_args", "get_right_hand_side",
+    "get_fluxes", "__call__", "get_stoichiometries", "get_stoichiometries_of_variable", "get_variable_names",
+    "get_parameter_names", "get_reaction_names", "get_readout_names", "get_surrogate_output_names",
+    "get_surrogate_reaction_names", "get_unused_parameters", "get_raw_variables", "get_raw_parameters",
+    "get_raw_derived", "get_raw_reactions", "get_raw_readouts", "get_raw_surrogates", "get_arg_names",
+    "get_raw_stoichiometries_of_variable", "get_args_time_course", "get_fluxes_time_course",
+    "get_right_hand_side_time_course", "__eq__" ]
+
+/-- public readers the model does NOT answer, each with the reason -/
+def outOfScope : List (String × String) :=
+  [ ("__repr__", "wadler_lindig pretty printer over the dataclass fields; runtime"),
+    ("parameters", "TableView (markdown / LaTeX through sympy) of the container; runtime"),
+    ("variables", "TableView of the container; runtime"),
+    ("derived", "TableView of the container; runtime"),
+    ("reactions", "TableView of the container; runtime"),
+    ("check_units", "sympy unit algebra; reads the containers and get_stoichiometries_of_variable (modelled)") ]
 
 /-! ### histories -/
 
@@ -825,5 +906,28 @@ def surOuts (c : Content) : List Name := c.surs.flatMap (fun kv => kv.2.outs)
 def contentNames (c : Content) : List Name :=
   omKeys c.vars ++ omKeys c.pars ++ omKeys c.derived ++ omKeys c.readouts ++ omKeys c.rxns
     ++ omKeys c.surs ++ surOuts c ++ omKeys c.data
+
+/-! ### building a model with a given content from scratch -/
+
+/-- the signature the function of component `n` was stated with, as the `given` of the call that adds it again -/
+def givenFor (sigs : List (Name × Gen.Sig)) (n : Name) : List (Name × Gen.Sig) :=
+  match sigs.lookup n with
+  | some g => [(n, g)]
+  | none => []
+
+/-- "a freshly built model with the same content": the `add_*` calls that build `c` on an empty `Model()`, container
+    by container, in the order the harness' fresh-model oracle uses (`c03ops.build_ops`), each function passed with the
+    signature it was stated with -/
+def rebuild (sigs : List (Name × Gen.Sig)) (c : Content) : List HOp :=
+  c.data.map (fun kv => HOp.edit (.add_data kv.1 kv.2) []) ++
+  c.vars.map (fun kv => HOp.edit (.add_variable kv.1 kv.2) (givenFor sigs kv.1)) ++
+  c.pars.map (fun kv => HOp.edit (.add_parameter kv.1 kv.2) (givenFor sigs kv.1)) ++
+  c.derived.map (fun kv => HOp.edit (.add_derived kv.1 kv.2) (givenFor sigs kv.1)) ++
+  c.rxns.map (fun kv => HOp.edit (.add_reaction kv.1 kv.2) (givenFor sigs kv.1)) ++
+  c.surs.map (fun kv => HOp.edit (.add_surrogate kv.1 kv.2) []) ++
+  c.readouts.map (fun kv => HOp.edit (.add_readout kv.1 kv.2) (givenFor sigs kv.1))
+
+/-- the freshly built model itself -/
+def freshState (s : State) : State := run init (rebuild s.sigs s.content)
 
 end Mxl.C03
